@@ -13,7 +13,7 @@ import (
 // allocation and the lifetime actually armed; a retransmission gets the same answer without creating
 // anything; another Allocate on the 5-tuple gets 437 and changes nothing.
 //
-//verif:props=C19,C06,C03,C04,C15 replay=model bounds="REQUESTED-TRANSPORT arbitrary byte or absent; LIFETIME absent/any 2^32; default lifetime 1..2^32-1 s; REQUESTED-ADDRESS-FAMILY absent/any byte; source IPv4/IPv6; arbitrary credential verdicts; relay allocation may fail; then a second Allocate with the same or another transaction id, by the same or another user"
+//verif:props=C19,C06,C03,C04,C15 replay=model bounds="REQUESTED-TRANSPORT arbitrary byte or absent; LIFETIME absent/any 2^32; default lifetime 1..2^32-1 s; REQUESTED-ADDRESS-FAMILY absent/any byte; source IPv4/IPv6; arbitrary credential verdicts; relay allocation may fail; then optionally a Refresh; then a second Allocate with the same or another transaction id, by the same or another user, with an arbitrary quota verdict"
 func VerifHarness_C19_allocate() {
 	s := vNewSrv(true, false)
 	s.lt = time.Duration(vU32()) * time.Second
@@ -98,8 +98,14 @@ func VerifHarness_C19_allocate() {
 		}
 		s.conn.Writes = nil
 		relays := len(s.env.Relays)
+		if vBool() {
+			a.Refresh(time.Duration(vU32()+1) * time.Second) // the client refreshed the allocation in between
+		}
 		resets := vTimerResets(a.VLifetimeTimer())
 		vAdvance(vI64())
+		// the operator's quota may be exhausted by now (this very allocation counts): a retransmission is still
+		// answered with the same success, another Allocate on the 5-tuple still gets 437
+		req.QuotaHandler = func(string, string, net.Addr) bool { return vBool() }
 		// fresh verdicts for the second request
 		s.nonce.validated, s.auth.calls = 0, 0
 		if !retrans && vBool() {
@@ -111,6 +117,8 @@ func VerifHarness_C19_allocate() {
 		vAssert(len(s.env.Relays) == relays, "C19.second_allocate_creates_nothing")
 		vAssert(vTimerResets(a.VLifetimeTimer()) == resets, "C19.second_allocate_does_not_touch_the_timer")
 		vAssert(s.env.M.VAllocationCount() == 1, "C04.one_allocation_per_five_tuple")
+		vAssertIf(vIsSuccess(r2), s.authPassed(), "C03.second_allocate_success_implies_credentials")
+		vAssertIf(!s.authPassed(), s.nonce.validated+s.auth.calls+len(s.conn.Writes) >= 1, "C03.second_allocate_is_authenticated_or_challenged")
 		if r2 != nil && s.authPassed() {
 			if retrans {
 				vAssert(vIsSuccess(r2), "C19.retransmitted_allocate_gets_success_again")
